@@ -123,13 +123,21 @@ def run(ctx):
     agg_all = by['agg']
     agg = [c for c in agg_all if not c.get('skip') and not c.get('err')]
     agg_errs = [c for c in agg_all if c.get('err')]
+    def cfiles(m):
+        return clist('(%s, %s)' % (I.s(n), clist(c_comment(I, x) for x in (m[n] or []))) for n in sorted(m or {}))
+
+    def own_given(c):
+        if c['mode'] == 'oneshot':
+            return cfiles(c['comments']), '[]'
+        if c['mode'] == 'twophase-dirs':
+            return '[]', cfiles(c['comments'])
+        if c['mode'] == 'mixed':
+            return cfiles(c['comments']), cfiles(c['given_comments'])
+        return '[]', '[]'    # twophase-nodirs
+
     body.append('Definition agg_cases : list agg_case := ' + clist(
-        '{| a_files := %s; a_carried := %s; a_raw := %s; a_obs := %s |}' % (
-            clist('(%s, %s)' % (I.s(n), clist(c_comment(I, x) for x in (c['comments'][n] or [])))
-                  for n in sorted(c['comments'])),
-            cbool(c['mode'] != 'twophase-nodirs'),
-            S.ref('vs', clist(c_viol(I, v) for v in c['raw'])),
-            clist(c_viol(I, v) for v in c['obs']))
+        '{| a_own := %s; a_given := %s; a_raw := %s; a_obs := %s |}' % (
+            own_given(c) + (S.ref('vs', clist(c_viol(I, v) for v in c['raw'])), clist(c_viol(I, v) for v in c['obs'])))
         for c in agg) + '.')
 
     checks = [('R_dir', 'dir_agrees', 'dir_cases'), ('R_ign', 'ign_agrees', 'ign_cases'),
@@ -169,7 +177,7 @@ def run(ctx):
     one = {json.dumps(c['files'], sort_keys=True): c for c in agg if c['mode'] == 'oneshot'}
     tp_bad = []
     for c in agg:
-        if c['mode'] == 'twophase-dirs':
+        if c['mode'] in ('twophase-dirs', 'mixed'):
             o = one.get(json.dumps(c['files'], sort_keys=True))
             if o is not None and sorted(map(json.dumps, o['obs'])) != sorted(map(json.dumps, c['obs'])):
                 tp_bad.append((c, o))
